@@ -474,6 +474,15 @@ func (nw *Network) DialIn(from, to string) (*Conn, error) {
 
 // Dial is called by the net shim for library dials.
 func (nw *Network) Dial(ctx context.Context, local net.Addr, address string, control func(network, address string, c syscall.RawConn) error) (net.Conn, error) {
+	// what net.Dialer does with an address it cannot parse, a non-numeric host or a port out of range:
+	// an error, before any connection attempt (and before Control runs)
+	if h, p, err := net.SplitHostPort(address); err != nil {
+		return nil, &net.OpError{Op: "dial", Net: "tcp", Err: err}
+	} else if net.ParseIP(h) == nil {
+		return nil, &net.OpError{Op: "dial", Net: "tcp", Err: &net.DNSError{Err: "no such host", Name: h, IsNotFound: true}}
+	} else if n, err := strconv.Atoi(p); err != nil || n < 0 || n > 65535 {
+		return nil, &net.OpError{Op: "dial", Net: "tcp", Err: &net.AddrError{Err: "invalid port", Addr: p}}
+	}
 	ra := tcpAddr(address)
 	var la *net.TCPAddr
 	if t, ok := local.(*net.TCPAddr); ok && t != nil {
@@ -492,7 +501,11 @@ func (nw *Network) Dial(ctx context.Context, local net.Addr, address string, con
 	nw.Dials = append(nw.Dials, att)
 	setResult := func(s string) { nw.Dials[idx].Result = s }
 	if control != nil {
-		if err := control("tcp4", address, nil); err != nil {
+		network := "tcp4"
+		if ra.IP.To4() == nil {
+			network = "tcp6"
+		}
+		if err := control(network, address, nil); err != nil {
 			setResult("control-error")
 			return nil, err
 		}
